@@ -288,6 +288,32 @@ pub fn run(ctx: &mut Ctx) {
             }
         }
     }
+    // provenance through hard paths: every operand position of every operator fed by every kind of
+    // data reference (nested, negative index, escaped dot, integer key, default, computed key, whole data ...)
+    for k in OPS {
+        for n in 1..=3usize {
+            if !refmodel::arity_ok(k, n) {
+                continue;
+            }
+            if !ctx.mine() {
+                continue;
+            }
+            for p in 0..n {
+                let base = benign(k, n);
+                if al::is_operation_shaped(&base[p]) {
+                    continue;
+                }
+                for payload in [base[p].clone(), json!({"var": "s"}), json!("é水"), json!([2, "x"])] {
+                    for (name, fetch, dd) in al::path_fetches(&payload) {
+                        ctx.edge();
+                        let mut args = base.clone();
+                        args[p] = fetch;
+                        ctx.check(&format!("fetch-provenance:{}", name), &op(k, args), &dd);
+                    }
+                }
+            }
+        }
+    }
     // tracer rules
     for k in OPS {
         for n in 0..=4usize {
